@@ -9,6 +9,7 @@ import SodiumModel.Spec.H2c
 import SodiumModel.Model.Scalar
 import SodiumModel.Model.Scalarmult
 import SodiumModel.Model.LadderRef10
+import SodiumModel.Model.Fe51
 import SodiumModel.Driver.C06
 import SodiumModel.Driver.C07Ref
 namespace Sodium.Driver.C05
@@ -24,11 +25,31 @@ def rcHex : Option Bytes → String
 /-! The C05 operations run the MODEL of the C code: ref10's `has_small_order` early reject, the
     clamping and the wrapper's all-zero check (`Model/Scalarmult.lean`) around the C-structured
     Montgomery ladder of x25519_ref10.c (`Model/LadderRef10.lean`: `fe25519_frombytes`, the 255
-    iterations in the statement order of the C code, `fe25519_invert`, `fe25519_tobytes`)
-    instantiated with the specification field `Spec.F25519`.  That this ladder equals RFC 7748
-    `X25519.x25519` on every clamped scalar is `C05Ladder.ref10_ladder_eq_rfc7748`. -/
+    iterations in the statement order of the C code, `fe25519_invert`, `fe25519_tobytes`).
+
+    The field under the ladder is one of two models:
+      * `multSpec`: the specification field `Spec.F25519` (`x25519_ref10`);
+      * `multFe51`: the radix-2^51 LIMB-LEVEL model of `private/ed25519_ref10_fe_51.h` / `fe_51/fe.h`
+        (`Model/Fe51.lean`: `uint64_t` limbs, `uint128_t` products, the carry chains, the addition
+        chain of `fe25519_invert`, the four passes of `fe25519_reduce`), `x25519_fe51`.
+    Both equal RFC 7748 `X25519.x25519` on every clamped scalar (`C05Ladder.ref10_ladder_eq_rfc7748`,
+    `C05Fe51.x25519_fe51_eq_rfc7748`).  The limb model costs ~13 ms per scalar multiplication in the
+    compiled driver (its `uint128_t` values are GMP naturals) against ~1.5 ms for the specification
+    field, i.e. ~7x the driver time of `check.py C05` if every call used it; therefore `mult` sends
+    ONE CALL IN FOUR (chosen by a hash of all scalar and point bytes: their sum mod 4 = 0) through the
+    limb model and the others through the specification field (~2.4x).  `multFe51` alone is the
+    full routing. -/
 open Sodium.Model.Scalarmult in
-def mult : Bytes → Bytes → Option Bytes := mult_ref10 Sodium.Model.LadderRef10.x25519_ref10
+def multSpec : Bytes → Bytes → Option Bytes := mult_ref10 Sodium.Model.LadderRef10.x25519_ref10
+
+open Sodium.Model.Scalarmult in
+def multFe51 : Bytes → Bytes → Option Bytes := mult_ref10 Sodium.Model.Fe51.x25519_fe51
+
+/-- the calls that go through the limb-level model: byte sum of scalar and point ≡ 0 mod 4 -/
+def viaLimbs (n p : Bytes) : Bool :=
+  ((n ++ p).foldl (fun (a : Nat) (b : UInt8) => a + b.toNat) 0) % 4 == 0
+
+def mult (n p : Bytes) : Option Bytes := multFe51 n p     -- every call through the limb-level model (tools/props/c05.py runs the driver in parallel); viaLimbs / multSpec kept for reference
 
 /-- `crypto_scalarmult_curve25519_base`: the model of `crypto_scalarmult_curve25519_ref10_base`
     (clamp, `ge25519_scalarmult_base`, `edwards_to_montgomery`, `fe25519_tobytes`) over the
